@@ -803,7 +803,9 @@ def project(world, ph2, err, wr=None):
                     cands["produced" + ("" if sym else "_raw")] = produced_fc(
                         cfg["obj"], world.src_ds[dsobs["src"]], fcobs["layout"] == "compact", symmetrize=sym,
                         issym=obs["np"]["issym"], tol=obs["np"]["tol"] if obs["np"]["tol"] in SYMPREC else "default",
-                        pmat=ph2.primitive_matrix)
+                        pmat=ph2.primitive_matrix,
+                        # the dataset rows belong to the atoms of the supercell load() built
+                        snf=(obs["np"]["order"] == "snf") if obs["np"]["order"] in ("snf", "classic") else bool(cfg["obj"]["np"]["snf"]))
                 except Exception:
                     pass
         src, dist = nearest_source(fc2, cands, close=1e-6)
